@@ -28,8 +28,14 @@ R = Run("C17",
         "-(2**mant+1)) x scalar/array: result dtype = float of the same item size (>= 16 bit) for integers, unchanged width "
         "for float16/32/64/longdouble and complex, or the call raises; values within 4 ulp (of the result type) of the exact "
         "rational conversion; copy and in-place twins agree on dtype and values; RuntimeWarning for integers beyond 2**mantissa. "
+        "Section equivalence-integer: every registered equivalence x every ordered pair of its member dimensions x 8 integer dtypes x "
+        "copying routes (to, in_units, to_equivalent, to_value with an equivalence; keyword variants mu/gamma) x 2 (thorough 3) source and "
+        "target units x arrays/scalars holding dtype max, isqrt(max)+1.., first n with n**4 > max, small values and negative twins "
+        "(every square / fourth power leaves the integer dtype): result = the same call on the float64 image of the data (1e-12 rel) and "
+        "= the defining formula on SI magnitudes (1e-9 rel x condition), requested unit, float dtype, no raise. "
         "Non-trivial = integer, narrow-float or complex data.",
-        "finite grid (quick: every dtype x every route x 1 seeded small-value draw + all limit values; thorough: 8 seeded draws)")
+        "finite grid (quick: every dtype x every route x 1 seeded small-value draw + all limit values; thorough: 8 seeded draws; "
+        "equivalence-integer: quick 2x2 units and 1 draw, thorough 3x3 units, 4 draws, positional / Unit-object call forms)")
 
 seen = set()
 SEED = R.args.seed
